@@ -29,7 +29,7 @@ var cv = rsm2.Std
 func curve() elliptic.Curve { return sm2.P256Sm2() }
 
 func TestMain(m *testing.M) {
-	R.Require("k>=n", "k_leading_zero_bytes", "len(k)>32", "k_wnaf_meet", "Add_equal", "Add_opposite", "Add_inf", "limb_max", "limb_carry", "genkey_allzero", "genkey_short")
+	R.Require("limb_sparse_enum", "k>=n", "k_leading_zero_bytes", "len(k)>32", "k_wnaf_meet", "Add_equal", "Add_opposite", "Add_inf", "limb_max", "limb_carry", "genkey_allzero", "genkey_short")
 	hx.Main(m, R)
 }
 
@@ -429,7 +429,7 @@ func feGen() *rapid.Generator[feCase] {
 			// choose the Montgomery limbs directly
 			var l [9]uint32
 			cls := "limb_mixed"
-			mode := rapid.IntRange(0, 3).Draw(t, "lmode")
+			mode := rapid.IntRange(0, 5).Draw(t, "lmode")
 			for i := range l {
 				max := uint32(1<<29 - 1)
 				if i%2 == 1 {
@@ -442,6 +442,14 @@ func feGen() *rapid.Generator[feCase] {
 				case mode == 1:
 					l[i] = rapid.SampledFrom([]uint32{0, 1, max, max - 1}).Draw(t, "lv")
 					cls = "limb_carry"
+				case mode == 4 || mode == 5:
+					// sparse: most limbs zero, the others tiny or at a power of two, so that products have isolated
+					// small columns and the Montgomery reduction meets digits 0, 1, 2 with empty neighbours
+					l[i] = rapid.SampledFrom([]uint32{0, 0, 0, 0, 0, 1, 1, 2, 3, 1 << 14, 1 << 27, 1 << 28 >> uint(i%2), max}).Draw(t, "lv")
+					if mode == 5 && i >= 3 {
+						l[i] = 0
+					}
+					cls = "limb_sparse"
 				default:
 					l[i] = rapid.Uint32Range(0, max).Draw(t, "lv")
 				}
@@ -474,6 +482,72 @@ func checkFE(t *rapid.T, e *sm2.VerifFE, want *big.Int, what string) {
 			t.Fatalf("field %s: limb %d = %#x out of documented bound", what, i, l)
 		}
 	}
+}
+
+// every field element whose Montgomery form has at most two non-zero limbs, with limb values from a small catalogue:
+// all squares, and products with a rotating choice of such partners, against math/big. Products of sparse operands
+// have isolated columns, which is where the reduction's digit-0/1/2 special cases and their borrows are decided.
+func TestC03_FieldSparse(t *testing.T) {
+	vals := func(i int) []uint32 {
+		max := uint32(1<<29 - 1)
+		if i%2 == 1 {
+			max = 1<<28 - 1
+		}
+		return []uint32{1, 2, 3, 5, 1 << 13, 1 << 14, 1<<14 + 1, 1 << 27, max >> 1, max>>1 + 1, max - 1, max}
+	}
+	var elems [][9]uint32
+	for i := 0; i < 9; i++ {
+		for _, vi := range vals(i) {
+			var l [9]uint32
+			l[i] = vi
+			if i == 8 {
+				l[i] &= 1<<27 - 1
+			}
+			elems = append(elems, l)
+			for j := i + 1; j < 9; j++ {
+				for _, vj := range vals(j) {
+					m := l
+					m[j] = vj
+					if j == 8 {
+						m[j] &= 1<<27 - 1
+					}
+					elems = append(elems, m)
+				}
+			}
+		}
+	}
+	toBig := func(l [9]uint32) *big.Int {
+		x := new(big.Int).Mul(limbsToInt(l), rInv)
+		return x.Mod(x, cv.P)
+	}
+	lo, hi := hx.ShardRange(0, len(elems))
+	partners := 12
+	if hx.Thorough() {
+		partners = 400
+	}
+	var n int64
+	for i := lo; i < hi; i++ {
+		a := sm2.VerifFE(elems[i])
+		av := toBig(elems[i])
+		sq := sm2.VerifFESquare(&a)
+		if w := new(big.Int).Mod(new(big.Int).Mul(av, av), cv.P); sm2.VerifFEToBig(&sq).Cmp(w) != 0 {
+			t.Fatalf("field square of the element with Montgomery limbs %v: got %x want %x", elems[i], sm2.VerifFEToBig(&sq), w)
+		}
+		n++
+		for k := 0; k < partners; k++ {
+			j := (i*7919 + k*104729 + int(hx.Seed())*31) % len(elems)
+			b := sm2.VerifFE(elems[j])
+			pr := sm2.VerifFEMul(&a, &b)
+			if w := new(big.Int).Mod(new(big.Int).Mul(av, toBig(elems[j])), cv.P); sm2.VerifFEToBig(&pr).Cmp(w) != 0 {
+				t.Fatalf("field product of the elements with Montgomery limbs %v and %v: got %x want %x", elems[i], elems[j], sm2.VerifFEToBig(&pr), w)
+			}
+			n++
+		}
+		if i%64 == 0 {
+			R.Case(true, hx.HashKey("sparse", i), "limb_sparse_enum")
+		}
+	}
+	R.Subspace("squares of all field elements with <= 2 non-zero Montgomery limbs from a 12-value catalogue, and products with rotating partners", n, true)
 }
 
 func TestC03_FieldTrees(t *testing.T) {
